@@ -104,7 +104,8 @@ func GetPosition(ast MalType) *Position {
 		// throw or assert
 		return nil
 	default:
-		panic(fmt.Errorf("GetPosition(%T)", value))
+		// a carrier of an unknown kind has no position
+		return nil
 	}
 }
 
